@@ -1731,3 +1731,117 @@ mod wrongdir {
     #[cfg(verif_replay)]
     include!("/verif/.cache/replay/broker__verif__wrongdir.rs");
 }
+
+// =================================================================================================
+// C02 / C03 / C12: forwarding a call (call_function / call_function2 -> call_function_impl)
+// =================================================================================================
+#[cfg(any(verif_unit = "all", verif_unit = "calls_fwd", verif_unit = "calls_fwd_t"))]
+mod calls_fwd {
+    use super::*;
+
+    /// A call is accepted exactly while the service cookie is live; it is then forwarded exactly
+    /// once, to the owner of the service's object, under a broker serial that is not in use, with
+    /// cookie / function / requested version / payload unchanged and the payload tagged with the
+    /// caller's protocol version; the owner gets the message kind its own version understands
+    /// (CallFunction2 iff >= 1.19). The caller's serial is recorded so that exactly one reply can
+    /// be routed back; a caller serial that is still in use closes the caller and records nothing.
+    /// A dead cookie is answered once with InvalidService under the caller's serial.
+    ///
+    /// `via2`: the request arrives as CallFunction2 (else as the legacy CallFunction).
+    fn call_lemma(ca: u8, who: u8, shape: (bool, bool, bool, bool), known: bool, via2: bool) {
+        let owner = 0;
+        let mut cw = call_world(owner, ca, ca, shape);
+        let serial: u32 = kani::any();
+        let function: u32 = kani::any();
+        let want: Option<u32> = if via2 && kani::any() { Some(kani::any()) } else { None };
+        let cookie = if known { svc_cookie(20) } else { svc_cookie(21) };
+        let who_minor = minor_of(&cw.w, who);
+        let owner_minor = minor_of(&cw.w, owner);
+        let dup = backref(&cw.w, who, serial).is_some();
+        let a0 = cw.a;
+        let r = if via2 {
+            cw.w.b.call_function2(&mut cw.w.st, &conn(who), CallFunction2 { serial, service_cookie: cookie, function, version: want, value: small_value() })
+        } else {
+            cw.w.b.call_function(&mut cw.w.st, &conn(who), CallFunction { serial, service_cookie: cookie, function, value: small_value() })
+        };
+        let n_calls = smv::elems(&cw.w.b.function_calls).len();
+        let n0 = a0.present as usize;
+        if via2 && who_minor < 19 {
+            assert!(r.is_err() && log_len() == 0 && n_calls == n0, "CallFunction2 below 1.19 closes the connection");
+            assert!(spec_state_unchanged(&cw, &a0));
+        } else if !known {
+            assert!(n_calls == n0 && spec_state_unchanged(&cw, &a0), "nothing is recorded for a dead cookie");
+            if send_fails(who) {
+                assert!(r.is_err() && log_len() == 0);
+            } else {
+                assert!(r.is_ok() && log_len() == 1);
+                let rep = log(0);
+                assert!(rep.to == who && rep.kind == K::CallFunctionReply && rep.serial == serial && rep.code == 3, "exactly one InvalidService reply under the caller's serial");
+            }
+            assert!(backref(&cw.w, who, serial).is_some() == dup);
+        } else if dup {
+            assert!(r.is_err() && log_len() == 0, "a caller serial that is still in use closes the caller");
+            assert!(n_calls == n0 && spec_state_unchanged(&cw, &a0), "and leaves no trace");
+        } else {
+            assert!(r.is_ok());
+            assert!(n_calls == n0 + 1, "one new pending call");
+            let (s, o) = backref(&cw.w, who, serial).unwrap();
+            assert!(o == owner, "the caller's entry names the owner of the service's object");
+            assert!(!(a0.present && a0.serial == s), "the broker serial is not one that is in use");
+            assert!(call_pending(&cw.w, s) == Some((serial, who, false)));
+            assert!(svv::function_calls(cw.w.b.svcs.get(&(obj_uuid(0), svc_uuid(0))).unwrap()).contains(&s));
+            assert!(spec_state_unchanged(&cw, &a0), "other pending calls are untouched");
+            if send_fails(owner) {
+                assert!(log_len() == 0);
+                let q = stv::remove_conns(&cw.w.st);
+                assert!(q.len() == 1 && q[0].0 == conn(owner), "an owner that cannot be reached is torn down (which answers the call)");
+            } else {
+                assert!(log_len() == 1, "forwarded exactly once");
+                let f = log(0);
+                assert!(f.to == owner, "to the owner and to nobody else");
+                assert!(f.kind == if owner_minor >= 19 { K::CallFunction2 } else { K::CallFunction }, "in the form the owner's version understands");
+                assert!(f.serial == s && f.cookie == 20 && f.aux == function);
+                assert!(f.vlen == 2 && f.v0 == 3 && f.v1 == 7, "payload unchanged");
+                assert!(f.vminor as u32 == who_minor, "payload tagged with the caller's version");
+                if owner_minor >= 19 {
+                    assert!(f.has_serial == want.is_some() && (want.is_none() || f.aux2 == want.unwrap()), "requested version passed on");
+                }
+                assert!(stv::remove_conns(&cw.w.st).is_empty());
+            }
+        }
+        if known {
+            kani::cover!(r.is_ok() && log_len() == 1 && log(0).kind == K::CallFunction);
+            kani::cover!(r.is_ok() && log_len() == 1 && log(0).kind == K::CallFunction2);
+        } else {
+            kani::cover!(r.is_ok() && log_len() == 1);
+        }
+        std::mem::forget(cw);
+    }
+
+    macro_rules! inst {
+        ($($name:ident = ($ca:expr, $who:expr, $shape:expr, $known:expr, $via2:expr);)*) => {$(
+            #[kani::proof]
+            #[kani::unwind(18)]
+            fn $name() {
+                call_lemma($ca, $who, $shape, $known, $via2);
+            }
+        )*};
+    }
+
+    const NONE_PENDING: (bool, bool, bool, bool) = (false, false, false, false);
+    const ONE: (bool, bool, bool, bool) = (true, false, false, false);
+    const ONE_ABORTED: (bool, bool, bool, bool) = (true, true, false, false);
+    inst! {
+        q_c02_c03_c12_c11_call_first = (1, 1, NONE_PENDING, true, false);
+        q_c02_c03_c12_c11_call2_first = (1, 1, NONE_PENDING, true, true);
+        q_c02_c03_c12_c11_call_second_same_caller = (1, 1, ONE, true, false);
+        q_c02_c03_c12_c11_call2_second_other_caller = (0, 1, ONE, true, true);
+        q_c02_c03_c12_c11_call_self = (0, 0, ONE, true, false);
+        q_c02_c03_c12_c11_call_after_abort_serial_reuse = (1, 1, ONE_ABORTED, true, false);
+        q_c02_c03_c12_c11_call_dead_cookie = (1, 1, ONE, false, false);
+        q_c02_c03_c12_c11_call2_dead_cookie = (1, 1, NONE_PENDING, false, true);
+    }
+
+    #[cfg(verif_replay)]
+    include!("/verif/.cache/replay/broker__verif__calls_fwd.rs");
+}
